@@ -365,7 +365,22 @@ class Fault(Exception):
     pass
 
 
+class ProviderError(Exception):
+    """An error class of the kind client libraries ship: it builds its message from the response it wraps - and the response
+    of THIS failure lacks the expected field, so rendering the exception (str / repr) fails itself."""
+
+    def __init__(self, response):
+        super().__init__()
+        self.response = response
+
+    def __str__(self):
+        return "provider error: %s" % self.response["error"]["message"]
+
+    __repr__ = __str__
+
+
 FAULT_TYPES = {
+    "UnprintableError": lambda: ProviderError({"status": 500}),
     "RuntimeError": lambda: RuntimeError("injected action failure"),
     "KeyError": lambda: KeyError("injected-missing-key"),
     "TimeoutError": lambda: asyncio.TimeoutError(),
